@@ -89,6 +89,27 @@ chk("C20", "exploration",
     "Pattern family restricted to constructs on which ECMAScript std::regex and PCRE agree; pool-level mount order over real front-ends is exercised by the server harness.",
     "runtime differential oracle (independent regex engine + routing model) under ASan/UBSan", "DESIGN.md section 4 / C20", "route_mon")
 
+chk("C05", "exploration",
+    "For 16 key materials (six HMACs, AES-128/192/256 with split, combined and derived keys) genuine cookies built by the real encryptors load exactly while unexpired (to the deadline second) and every tampering of "
+    "the decoded cipher text (all single-bit flips for short ones, all truncations, extensions, block swaps, splices, MAC transplants, foreign keys/algorithms, arbitrary strings) is rejected with the cookie cleared; "
+    "every successful load returns a recorded save; necessary conditions for confidentiality are checked on the encrypting back ends; ASan/UBSan, memcheck in thorough.",
+    "Confidentiality proper is a hyperproperty and only necessary conditions are observed; forging resistance is judged on the tampering classes generated, not cryptographically.",
+    "runtime monitor: provenance oracle over generated and tampered cookies under a virtual clock, ASan/UBSan/memcheck", "DESIGN.md section 4 / C05", "sess_mon")
+
+chk("C06", "exploration",
+    "Random histories of 1..4 simulated browsers and an adversary against session_interface over a shared pool, for location x storage x expiration mode x age, under a virtual clock; an executable model (exact contents, "
+    "deadline interval per the documented policy) predicts every load; identifiers are checked for form, freshness, provenance from /dev/urandom and revocation after clear/reset/move; a wrapping storage and an open() shim "
+    "verify that only identifiers of the issued form ever address storage; exposed cookies must track the session. Found and fixed: exposed cookies were not reissued when the deadline moved.",
+    "Deadline inside the 10 % renewal window is accepted either way; network storage not driven; unpredictability only as provenance + uniqueness.",
+    "runtime monitor: reference model over generated histories with virtual clock and I/O shims, ASan/UBSan", "DESIGN.md section 4 / C06", "sess_hist")
+
+chk("C18", "fault_enumeration",
+    "The write() sequence of a file-backed session save is recorded through a link-time shim; every prefix of it, every byte prefix of the data area, subsets of touched 512-byte sectors, and real child-process crashes "
+    "after exactly k bytes, on top of absent/shorter/equal/longer previous files, are each followed by the real load(): the result is 'no session' (file unlinked) or a complete earlier/in-flight payload with a deadline of a save "
+    "that is not past; gc() is compared with a directory model (never removes a live session or a foreign file, removes expired/unreadable ones).",
+    "Header write atomic (as the property states); sector model as described; CRC-32 collisions would be genuine.",
+    "fault injection at write() (real kills + synthesized crash states) with the real loader as oracle, ASan/UBSan", "DESIGN.md section 4 / C18", "fstore_mon")
+
 ENGINES = [
     dict(name="check", path="check", kind_free_text="python3 driver: builds flavors from /repo's working tree, runs monitors in parallel, known-findings matching, evidence"),
     dict(name="utf_mon", path="harness/utf_mon.cpp", serves_properties=["C14"], kind_free_text="in-process monitor, reference decoder oracle"),
@@ -98,6 +119,9 @@ ENGINES = [
     dict(name="cache_conc", path="harness/cache_conc.cpp", serves_properties=["C09"], kind_free_text="multi-threaded history recorder + L1 conditions + WGL linearizability checker (tsan and asan flavors)"),
     dict(name="mp_mon", path="harness/mp_mon.cpp", serves_properties=["C12"], kind_free_text="in-process multipart monitor; libFuzzer target mp_fuzz"),
     dict(name="route_mon", path="harness/route_mon.cpp", serves_properties=["C20"], kind_free_text="in-process routing monitor with std::regex model"),
+    dict(name="sess_mon", path="harness/sess_mon.cpp", serves_properties=["C05"], kind_free_text="in-process cookie tampering monitor"),
+    dict(name="sess_hist", path="harness/sess_hist.cpp", serves_properties=["C06"], kind_free_text="in-process session history monitor with browser/adversary simulation and model"),
+    dict(name="fstore_mon", path="harness/fstore_mon.cpp", serves_properties=["C18"], kind_free_text="crash-point enumerator for session_file_storage with write()/open() shims"),
     dict(name="codec_mon", path="harness/codec_mon.cpp", serves_properties=["C15"], kind_free_text="in-process monitor, inverse-function oracles"),
     dict(name="crypto_mon", path="harness/crypto_mon.cpp", serves_properties=["C16"], kind_free_text="in-process differential monitor against libgcrypt"),
     dict(name="ser_mon", path="harness/ser_mon.cpp", serves_properties=["C19"], kind_free_text="in-process monitor, shadow reader; also libFuzzer target ser_fuzz"),
